@@ -567,6 +567,47 @@ def corpus_pfiles():
             P.file_opts[0]['gen_pack_helpers'] = False
             P.msg_opts = {1: {'gen_pack_helpers': True}, 4: {'gen_init_helpers': False}, 6: {'gen_init_helpers': True}}
         out.append(('nesthelpers%d' % variant, P))
+    # string_as_bytes under every label and as a oneof member: the field is a ProtobufCBinaryData with a has_ flag, whatever
+    # the .proto type says (seeded change S59)
+    for syntax in (2, 3):
+        P = PFile()
+        sing = L_OPT if syntax == 2 else L_NONE
+        flds = [Field('raw', 1, sing, T_BYTES), Field('many', 3, L_REP, T_BYTES),
+                Field('os', 4, sing, T_BYTES, F_ONEOF, 0), Field('on', 5, sing, T_INT32, F_ONEOF, 0),
+                Field('plain', 6, sing, T_STRING, dflt=('E', None) if syntax == 3 else None), Field('b', 7, sing, T_BYTES), Field('tail', 8, sing, T_INT32)]
+        sab = {'raw', 'many', 'os'}
+        if syntax == 2:
+            flds.append(Field('need', 2, L_REQ, T_BYTES))
+            sab.add('need')
+        m = Msg('Sab', flds, ngroups=1, syntax=syntax)
+        P.sch = Schema([m], syntax)
+        P.enums = [PEnumDef('Color', [('RED', 0)])]
+        P.parent = {0: None}
+        P.infile = {0: 0}
+        P.decl = {0: list(range(len(m.fields)))}
+        P.oneof_names[(0, 0)] = 'kind0'
+        P.fopt = {(0, i): {'sab': True} for i, f in enumerate(m.fields) if f.name in sab}
+        out.append(('sab%d' % syntax, P))
+    # an enum defined in an imported file whose C package differs from the importing file's, used with and without an
+    # explicit default, required and optional (seeded change S70); and required enum fields without default whose first
+    # declared value is not 0 (seeded change S68: such a field has NO default as far as the parser is concerned)
+    for variant in (0, 1):
+        P = PFile()
+        flds = [Field('e', 1, L_OPT, T_ENUM, dflt=('V', 5)), Field('r', 2, L_REQ, T_ENUM, dflt=('V', 3)), Field('n', 3, L_OPT, T_ENUM),
+                Field('q', 4, L_REQ, T_ENUM), Field('many', 5, L_REP, T_ENUM), Field('loc', 6, L_REQ, T_ENUM), Field('x', 7, L_REQ, T_INT32)]
+        flds[2].init = 3
+        flds[3].init = 3
+        flds[5].init = 7
+        outer = [Field('in1', 1, L_OPT, T_MESSAGE, sub=0), Field('ins', 2, L_REP, T_MESSAGE, sub=0), Field('k', 3, L_OPT, T_INT32)]
+        P.sch = Schema([Msg('Uses', flds), Msg('Outer', outer), Msg('DepMsg', [Field('v', 1, L_OPT, T_INT32)])], 2)
+        P.enums = [PEnumDef('DepEnum', [('D_C', 3), ('D_A', 0), ('D_B', 5)], None, 1), PEnumDef('Level', [('HIGH', 7), ('LOW', 2)])]
+        P.field_enum = {(0, i): (1 if f.name == 'loc' else 0) for i, f in enumerate(P.sch.msgs[0].fields) if f.type == T_ENUM}
+        P.parent = {0: None, 1: None, 2: None}
+        P.infile = {0: 0, 1: 0, 2: 1}
+        P.decl = {0: list(range(7)), 1: [0, 1, 2], 2: [0]}
+        P.pkg = ['t', 'other.pkg']
+        P.cpkg = [None, 'Y'] if variant == 0 else ['Xc', None]
+        out.append(('depenum%d' % variant, P))
     return out
 
 
